@@ -691,8 +691,13 @@ func c19exec(op string) Result {
 	// oracle 1: transparency
 	if !killed && !dockilled {
 		if got.res != ref.ref.res || got.t != ref.ref.t {
-			viol("debugger-changes-result", "under the debugger main gives %q (fingerprint %d), without %q (fingerprint %d)", got.res, got.t, ref.ref.res, ref.ref.t)
-			r.Out += " RESULT-DIFFERS"
+			if blind >= 0 {
+				// beyond the region the model covers: a frame that was running at full speed
+				viol("result-differs-after-breakpoint-in-fast-frame", "under the debugger main gives %q (fingerprint %d), without %q (fingerprint %d)", got.res, got.t, ref.ref.res, ref.ref.t)
+			} else {
+				viol("debugger-changes-result", "under the debugger main gives %q (fingerprint %d), without %q (fingerprint %d)", got.res, got.t, ref.ref.res, ref.ref.t)
+				r.Out += " RESULT-DIFFERS"
+			}
 		}
 	}
 	if rec.runaway {
@@ -912,7 +917,11 @@ func (g *c19pg) stmt(c c19ctx) {
 			g.upd(c)
 			return
 		}
-		e("defer")
+		// (written `d := func() {...}; defer d()`: for `defer func() {...}()` the compiler records the position of
+		// the last statement compiled inside the closure as position of the defer statement itself)
+		g.k++
+		name := fmt.Sprintf("d%d", g.k)
+		e(name + " :=")
 		in := c19ctx{level: c.level + 1, ret: "return", budget: c.budget - 1, deferd: true}
 		g.emit(in.level, true, "func() {")
 		if g.panics && r.Intn(2) == 0 {
@@ -923,7 +932,8 @@ func (g *c19pg) stmt(c c19ctx) {
 		g.emit(in.level, true, "x := 1")
 		g.upd(in)
 		g.body(in)
-		e("}()") // position of the defer statement's call
+		g.emit(in.level, true, "}")
+		e("defer " + name + "()")
 	case k < 84: // deferred call
 		fn, ok := g.callee(c.level)
 		if !ok || c.loops > 0 {
@@ -1049,6 +1059,11 @@ func c19mkop(kind string, script []string, tr []c19Event, prelude, main string) 
 var c19fixed = []string{
 	"var t uint64\nfunc g(a int) int { //L2\nt = t*31 + 1 //L2\n\"break\" //L2\nt = t*31 + 2 //L2\nreturn a + 1 //L2\n} //L2\nfunc f(a int) int { //L1\nx := g(a) //L1\nfor i := 0; i < 2; i++ { //L1\nt = t*31 + 3 //L1\nx += g(i) //L1\n} //L1\nt = t*31 + 4 //L1\nreturn x //L1\n} //L1\n---\nf(1)",
 	"var t uint64\nfunc h(a int) int { //L3\nt = t*31 + 1 //L3\nreturn a //L3\n} //L3\nfunc g(a int) int { //L2\ndefer //L2\nfunc() { //L3D\nt = t*31 + 2 //L3D\n_ = \"break\" //L3D\nt = t*31 + 5 //L3D\n}() //L3D\nx := h(a) + h(a+1) //L2\nt = t*31 + 3 //L2\nreturn x //L2\n} //L2\nfunc f(a int) int { //L1\nx := g(a) //L1\nt = t*31 + 4 //L1\nx += g(x) //L1\nreturn x //L1\n} //L1\n---\nf(2)",
+}
+
+func init() {
+	// early return in the caller of the function that contains the breakpoint (every body ends with an explicit return)
+	c19fixed = append(c19fixed, "var t uint64\nfunc g(a int) int { //L2\nt = t*31 + 1 //L2\n\"break\" //L2\nreturn a //L2\n} //L2\nfunc f(a int) int { //L1\nx := g(a) //L1\nif x == 1 { //L1\nt = t*31 + 2 //L1\nreturn x //L1\n} //L1\nt = t*31 + 3 //L1\nreturn x + 10 //L1\n} //L1\n---\nf(1)")
 }
 
 func c19traceOf(prelude, main string) ([]c19Event, bool) {
@@ -1395,7 +1410,7 @@ func init() {
 	_ = sort.Strings
 	register(&Prop{
 		ID: "C19",
-		Rule: "bounded-exhaustive: 2 fixed programs (nested calls, loop, breakpoint, deferred closure) x every command sequence over {s,n,f,c} of length<=4 (quick) / <=6 (thorough) x {Interp.Debug, Interp.Eval}; " +
+		Rule: "bounded-exhaustive: 3 fixed programs (nested calls, loop, breakpoint, deferred closure, early return) x every command sequence over {s,n,f,c} of length<=4 (quick) / <=6 (thorough) x {Interp.Debug, Interp.Eval}; " +
 			"random: programs with 1-3 call levels, closures, loops, if/switch, deferred closures/calls, panic/recover, breakpoint statements, early returns x random scripts of (abbreviated) step/next/finish/continue, noise lines, empty lines, kill, EOF; " +
 			"every statement updates a fingerprint so each observed stop is matched to its unique position in the complete single-step trace. Non-trivial: >=2 documented stops and >=2 distinct resume commands.",
 		Gen:        c19gen,
